@@ -124,6 +124,50 @@ def _work(units):
             n_eval += 1
             if stats.probit() != 0.0:
                 viol.append({"kind": "ci:spelling", "case": {"alpha": "default", "order": u[1]}, "observed": repr(stats.probit()), "why": "probit() is probit(0.5) = 0"})
+        elif u[0] == "threads":
+            # two threads ask for intervals at different confidence levels (every interleaving with <= bound preemptions at the
+            # line points of the stats module, real threads under the controlled scheduler of mc/xsched.py); each answer, and
+            # every later sequential answer, is the textbook value of its own arguments
+            from .. import xsched
+
+            confs = (0.9, 0.99)
+
+            def make():
+                ctx = {"results": {}}
+
+                def body(conf):
+                    def run(ex, tid):
+                        ctx["results"][tid] = [stats.confidence_interval(100, 0.5, conf), stats.confidence_interval(100, 0.5, confidence=conf, method="wald")]
+
+                    return run
+
+                return [body(c) for c in confs], ctx
+
+            def want(conf, method):
+                return textbook(100, 0.5, conf, method, C * abs(math.log(((1 - conf) / 2) / (1 - (1 - conf) / 2))))
+
+            def chk(ex, ctx):
+                if ex.errors:
+                    return {"kind": "ci:threads", "case": {"confidences": list(confs)}, "why": f"a thread died: {ex.errors}"}
+                for tid, conf in enumerate(confs):
+                    got = ctx["results"].get(tid)
+                    exp = [want(conf, "agresti-coull"), want(conf, "wald")]
+                    if not got or any(not (close(g[0], e[0]) and close(g[1], e[1])) for g, e in zip(got, exp)):
+                        return {"kind": "ci:threads", "case": {"confidences": list(confs)}, "observed": repr(got), "why": f"thread {tid} asked for confidence {conf}: textbook {exp!r}"}
+                for conf in confs:  # and afterwards, sequentially
+                    g, e = stats.confidence_interval(100, 0.5, conf), want(conf, "agresti-coull")
+                    if not (close(g[0], e[0]) and close(g[1], e[1])):
+                        return {"kind": "ci:threads", "case": {"confidences": list(confs)}, "observed": repr(g), "why": f"after the threads were joined, confidence {conf} gives {g!r}, textbook {e!r}"}
+                return None
+
+            st = {}
+            with xsched.Instrument("line", ["pyab_experiment.utils.stats"]):
+                vs = xsched.explore(make, chk, u[1], stats=st)
+            n_eval += st.get("schedules", 0)
+            outs.add(("schedules", st.get("schedules", 0)))
+            for v in vs:
+                v["bound"] = u[1]
+                viol.append(v)
         elif u[0] == "unknown":
             for m in UNKNOWN:
                 n_eval += 1
@@ -186,7 +230,7 @@ def _work(units):
 def run(res, tier):
     bits = 15 if tier == "quick" else 23
     step = 1 << 11
-    units = [("ci", m, p) for m in METHODS for p in PS] + [("unknown",), ("ztail",), ("zpairs",), ("spelling", "fwd"), ("spelling", "rev")]
+    units = [("ci", m, p) for m in METHODS for p in PS] + [("unknown",), ("ztail",), ("zpairs",), ("spelling", "fwd"), ("spelling", "rev"), ("threads", 2 if tier == "quick" else 3)]
     units += [("z", lo, min(lo + step, 1 << bits), bits) for lo in range(1, 1 << bits, step)]
     for w in pmap(_work, permuted(units, "c18"), chunk=2):
         res.merge_worker(w)
@@ -213,6 +257,9 @@ def replay(data):
     out = None
     k = data["kind"]
     c = data["case"]
+    if k == "ci:threads":
+        r = _work([("threads", data.get("bound", 2))])
+        return bool(r["viol"]), (r["viol"][0]["why"] if r["viol"] else "every interleaving gives the textbook values")
     if k == "ci:spelling":
         r = _work([("spelling", c.get("order", "fwd"))])
         return bool(r["cov"]["violating_cases"]), f"{r['cov']['violating_cases']} calls of the spelling sequence disagree with the textbook value of their own arguments"
